@@ -35,6 +35,31 @@ def float_pool(rng, ebits, mbits, n_rand, dense):
     for _ in range(n_rand):
         out.append(rng.getrandbits(W))
         out.append(mk(rng.getrandbits(1), rng.randrange(1, emax), rng.getrandbits(mbits)))
+    # decimal structure: powers of ten and small multiples (their shortest text is an exponent without fraction, "1e+22"),
+    # values with short decimal forms, and - for the wide format - values that are exactly representable in the narrow one
+    # (a printer that chooses its precision by value rather than by type meets them)
+    import struct
+    fmt, ifmt = ("<f", "<I") if W == 32 else ("<d", "<Q")
+    lo, hi = (-45, 39) if W == 32 else (-323, 309)
+    for k in range(lo, hi, 1 if dense else 3):
+        for d in (1, 2, 5, 9):
+            try:
+                x = float("%de%d" % (d, k))
+                b = struct.unpack(ifmt, struct.pack(fmt, x))[0]
+            except (OverflowError, struct.error):
+                continue
+            out += [b, b | (1 << (W - 1))]
+    for x in (0.1, 0.2, 0.3, 1.5, 1234.5, 1e9, 1e10, 4294967296.0, 2147483648.0, 9007199254740992.0, 9.223372036854775808e18, 2.0 ** -20, 16777216.0, 3.0e38):
+        try:
+            b = struct.unpack(ifmt, struct.pack(fmt, x))[0]
+            out += [b, b | (1 << (W - 1))]
+        except (OverflowError, struct.error):
+            pass
+    if W == 64:
+        for fb in (0x3DCCCCCD, 0x7F7FFFFF, 0x00800000, 0x00000001, 0x3F800001, 0x4F000000, 0x5F000000, 0x3EAAAAAB, 0x40490FDB, 0x501502F9):
+            x = struct.unpack("<f", struct.pack("<I", fb))[0]
+            b = struct.unpack("<Q", struct.pack("<d", x))[0]
+            out += [b, b | (1 << 63)]
     seen, res = set(), []
     for v in out:
         if v not in seen:
